@@ -63,6 +63,9 @@ func (p *Program) Verify(fn *ssa.Function, fc *FuncContract, mode Mode, primary,
 	for k, v := range seed {
 		c.memSorts[k] = v
 	}
+	if fc != nil && fc.AbstractMul {
+		c.abstractMul = true
+	}
 	e.analyzeCFG()
 	st := &State{mem: map[string]string{}, epoch: "0"}
 	c.declare("ctr0", "Int")
@@ -135,6 +138,14 @@ func (p *Program) Verify(fn *ssa.Function, fc *FuncContract, mode Mode, primary,
 			s, err := e.baseEnv.ElabBool(r.E)
 			if err != nil {
 				e.errs = append(e.errs, fmt.Sprintf("assume %q: %v", r.Text, err))
+				continue
+			}
+			c.assume(s)
+		}
+		for _, u := range fc.Unfolds {
+			s, err := e.baseEnv.UnfoldSpec(u.E)
+			if err != nil {
+				e.errs = append(e.errs, fmt.Sprintf("unfold %q: %v", u.Text, err))
 				continue
 			}
 			c.assume(s)
@@ -459,6 +470,17 @@ func (e *Encoder) loopHeader(li *loopInfo, b *ssa.BasicBlock, st *State, pc stri
 		for _, inv := range li.spec.Invariants {
 			s, err := env.ElabBool(inv.E)
 			if err != nil {
+				continue
+			}
+			c.assume(implies(pc, s))
+		}
+	}
+	if li.spec != nil {
+		env := e.envAt(st, b, nil)
+		for _, u := range li.spec.Unfolds {
+			s, err := env.UnfoldSpec(u.E)
+			if err != nil {
+				e.errs = append(e.errs, fmt.Sprintf("loop %d unfold %q: %v", li.ord, u.Text, err))
 				continue
 			}
 			c.assume(implies(pc, s))
@@ -1218,6 +1240,9 @@ func (e *Encoder) ret(in *ssa.Return, st *State, pc string) {
 		}
 		s, err := env.ElabBool(en.E)
 		if err != nil {
+			if strings.Contains(err.Error(), "unknown identifier $call") {
+				continue // the dynamic call named by the clause does not happen on this return path
+			}
 			e.errs = append(e.errs, fmt.Sprintf("ensures %q: %v", en.Text, err))
 			continue
 		}
